@@ -1,6 +1,7 @@
 package hopserver
 
 import (
+	"encoding/base64"
 	"errors"
 	"io"
 	"io/fs"
@@ -102,7 +103,7 @@ func VH_C05_authorizekey_fails_closed() {
 // if every non-blank line is a well-formed entry and one of them is the key.
 //
 //verif:prop C05
-//verif:bounds authorized_keys file of 0..3 lines, each one of: the client's key, another valid key, blank, whitespace, comment, wrong prefix, truncated base64, valid entry with trailing garbage; real bufio.Scanner / TrimSpace / ParseDHPublicKey / base64 on those concrete texts; client key = key A or key C (unlisted)
+//verif:bounds authorized_keys file of 0..3 lines, each one of: the client's key, another valid key, blank, whitespace, comment, wrong prefix, truncated base64, valid entry with trailing garbage, payload of 33 bytes (client's key + 1), payload of 31 bytes; real bufio.Scanner / TrimSpace / ParseDHPublicKey / base64 on those concrete texts; client key = key A or key C (unlisted)
 //verif:cover granted;refused
 //verif:timeout 600
 func VH_C05_parser_accepts_only_wellformed_files() {
@@ -115,7 +116,7 @@ func VH_C05_parser_accepts_only_wellformed_files() {
 	hasA := false
 	n := verifPick("lines", 0, 1, 2, 3)
 	for i := 0; i < n; i++ {
-		switch verifPick("line-kind", 0, 1, 2, 3, 4, 5, 6, 7) {
+		switch verifPick("line-kind", 0, 1, 2, 3, 4, 5, 6, 7, 8, 9) {
 		case 0:
 			text += a.String() + "\n"
 			hasA = true
@@ -137,6 +138,14 @@ func VH_C05_parser_accepts_only_wellformed_files() {
 			allOK = false
 		case 7:
 			text += a.String() + " trailing\n"
+			allOK = false
+		case 8:
+			// decodes to 33 bytes whose first 32 are the client's key
+			text += keys.DHPublicKeyPrefix + base64.StdEncoding.EncodeToString(append(a[:], 0x77)) + "\n"
+			allOK = false
+		case 9:
+			// decodes to 31 bytes
+			text += keys.DHPublicKeyPrefix + base64.StdEncoding.EncodeToString(a[:31]) + "\n"
 			allOK = false
 		}
 	}
